@@ -16,6 +16,8 @@ import (
 	"strconv"
 	"strings"
 
+	mail "github.com/wneessen/go-mail"
+
 	"verif/internal/ev"
 	"verif/internal/faultio"
 	"verif/internal/gen"
@@ -284,6 +286,86 @@ type c01Case struct {
 	// Before: what happened to the assembled message before the judged render: "render" = rendered once already,
 	// "fail:<k>" = a render whose destination failed after k bytes (the caller retries after a failed write)
 	Before []string `json:"before,omitempty"`
+	// Edits: builder calls made after the spec has been assembled, mirrored on the expectation: reverse-attachments /
+	// reverse-embeds (Get + Set in reverse order), unset-attachments, unset-embeds, unset-parts (then a new body),
+	// delete-part:<i> (Part.Delete), part-content:<i> (Part.SetContent), new-body (SetBodyString replaces all parts),
+	// add-attachment / add-embed / add-alternative after the other edits
+	Edits []string `json:"edits,omitempty"`
+}
+
+// c01ApplyEdits performs the edits on the message and returns the spec that describes what the message now holds.
+func c01ApplyEdits(m *mail.Msg, s *gen.MsgSpec, edits []string) *gen.MsgSpec {
+	eff := *s
+	eff.Parts = append([]gen.PartSpec(nil), s.Parts...)
+	eff.Embeds = append([]gen.FileSpec(nil), s.Embeds...)
+	eff.Attach = append([]gen.FileSpec(nil), s.Attach...)
+	// live[i]: index in m.GetParts() of the i-th part that is still part of the message (Delete only marks a part)
+	live := make([]int, len(eff.Parts))
+	for i := range live {
+		live[i] = i
+	}
+	for _, e := range edits {
+		name, arg, _ := strings.Cut(e, ":")
+		idx, _ := strconv.Atoi(arg)
+		switch name {
+		case "reverse-attachments":
+			fs := m.GetAttachments()
+			rev := make([]*mail.File, len(fs))
+			for i := range fs {
+				rev[len(fs)-1-i] = fs[i]
+			}
+			m.SetAttachments(rev)
+			for i, j := 0, len(eff.Attach)-1; i < j; i, j = i+1, j-1 {
+				eff.Attach[i], eff.Attach[j] = eff.Attach[j], eff.Attach[i]
+			}
+		case "reverse-embeds":
+			fs := m.GetEmbeds()
+			rev := make([]*mail.File, len(fs))
+			for i := range fs {
+				rev[len(fs)-1-i] = fs[i]
+			}
+			m.SetEmbeds(rev)
+			for i, j := 0, len(eff.Embeds)-1; i < j; i, j = i+1, j-1 {
+				eff.Embeds[i], eff.Embeds[j] = eff.Embeds[j], eff.Embeds[i]
+			}
+		case "unset-attachments":
+			m.UnsetAllAttachments()
+			eff.Attach = nil
+		case "unset-embeds":
+			m.UnsetAllEmbeds()
+			eff.Embeds = nil
+		case "unset-parts":
+			// UnsetAllParts removes the attachments and the embeds (not the body parts)
+			m.UnsetAllParts()
+			eff.Attach, eff.Embeds = nil, nil
+		case "delete-part":
+			if idx < len(eff.Parts) {
+				m.GetParts()[live[idx]].Delete()
+				eff.Parts = append(eff.Parts[:idx:idx], eff.Parts[idx+1:]...)
+				live = append(live[:idx:idx], live[idx+1:]...)
+			}
+		case "part-content":
+			if idx < len(eff.Parts) {
+				m.GetParts()[live[idx]].SetContent("content set through Part.SetContent\r\nsecond line =3D with an equals sign\r\n")
+				eff.Parts[idx].Content = []byte("content set through Part.SetContent\r\nsecond line =3D with an equals sign\r\n")
+			}
+		case "new-body":
+			m.SetBodyString(mail.TypeTextPlain, "a new body that replaces every part\r\n")
+			eff.Parts = []gen.PartSpec{{Type: "text/plain", Content: []byte("a new body that replaces every part\r\n")}}
+			live = []int{len(m.GetParts()) - 1}
+		case "add-alternative":
+			m.AddAlternativeString(mail.TypeTextHTML, "<p>added alternative</p>\r\n")
+			eff.Parts = append(eff.Parts, gen.PartSpec{Type: "text/html", Content: []byte("<p>added alternative</p>\r\n")})
+			live = append(live, len(m.GetParts())-1)
+		case "add-attachment":
+			_ = m.AttachReader("added.bin", bytes.NewReader([]byte("added attachment \x00\x01\xff\r\n")))
+			eff.Attach = append(eff.Attach, gen.FileSpec{Name: "added.bin", Content: []byte("added attachment \x00\x01\xff\r\n")})
+		case "add-embed":
+			_ = m.EmbedReader("added.png", bytes.NewReader([]byte("added embed\r\n")))
+			eff.Embeds = append(eff.Embeds, gen.FileSpec{Name: "added.png", Content: []byte("added embed\r\n")})
+		}
+	}
+	return &eff
 }
 
 // checkRendered is the C01 oracle over one rendered message.
@@ -493,6 +575,14 @@ func runC01Case(r *ev.Run, c c01Case, env *gen.Env) {
 		r.HarnessError(fmt.Sprintf("C01: cannot build spec %s: %v", s.ID, err))
 		return
 	}
+	if len(c.Edits) > 0 {
+		s = c01ApplyEdits(m, s, c.Edits)
+		if len(s.Parts)+len(s.Embeds)+len(s.Attach) == 0 {
+			r.Count("edited_to_empty_message_skipped", 1)
+			return
+		}
+		r.Count("messages_edited_after_assembly", 1)
+	}
 	for _, b := range c.Before {
 		func() {
 			defer func() { _ = recover() }()
@@ -614,11 +704,40 @@ func runC01(r *ev.Run, rep *ev.ReplayDoc) ev.Summary {
 				}
 			}
 		}
+		if i >= enumN && rng.Intn(5) == 1 {
+			ne := 1 + rng.Intn(3)
+			for k := 0; k < ne; k++ {
+				e := gen.Pick(rng, []string{"reverse-attachments", "reverse-embeds", "unset-attachments", "unset-embeds", "unset-parts", "delete-part", "delete-part", "part-content", "new-body", "add-alternative", "add-attachment", "add-embed"})
+				if e == "delete-part" || e == "part-content" {
+					e += fmt.Sprintf(":%d", rng.Intn(3))
+				}
+				c.Edits = append(c.Edits, e)
+			}
+		}
 		if i%997 == 0 {
 			r.Sample(map[string]any{"shape": s.Shape(), "subject": s.Subject})
 		}
 		runC01Case(r, c, env)
 	})
-	sum.Extra = map[string]any{"enumerated_shapes": len(shapes)}
+	// every single edit (and the deletion of every body part) on every small shape
+	var ecases []c01Case
+	en := 0
+	for p := 0; p <= 2; p++ {
+		for e := 0; e <= 2; e++ {
+			for a := 0; a <= 2; a++ {
+				if p+e+a == 0 {
+					continue
+				}
+				for _, ed := range [][]string{{"reverse-attachments"}, {"reverse-embeds"}, {"unset-attachments"}, {"unset-embeds"}, {"unset-parts"}, {"delete-part:0"}, {"delete-part:1"}, {"delete-part:0", "delete-part:0"},
+					{"part-content:0"}, {"part-content:1"}, {"new-body"}, {"add-alternative"}, {"add-attachment"}, {"add-embed"}, {"delete-part:0", "add-alternative"}, {"unset-attachments", "add-attachment"}, {"delete-part:0", "delete-part:0", "add-embed"}} {
+					en++
+					rng := r.Rng("c01edit", en)
+					ecases = append(ecases, c01Case{Spec: genSpec(rng, fmt.Sprintf("c01-x%d", en), msgEncs[en%3], p, e, a), Edits: ed})
+				}
+			}
+		}
+	}
+	r.Parallel(len(ecases), func(i int) { runC01Case(r, ecases[i], env) })
+	sum.Extra = map[string]any{"enumerated_shapes": len(shapes), "enumerated_edit_cases": len(ecases)}
 	return sum
 }
